@@ -30,7 +30,31 @@
 //! promise short-circuiting across rows of a batch) are compared row-wise instead and counted under the label
 //! `simplified:batch-only-error`.
 //!
-//! Sensitivity probes: see the end of this header (filled in after probing).
+//! Further soundness rules: (1) the evaluated ORIGINAL renders `coalesce`/`nvl` by their CASE definition (the
+//! `coalesce` UDF refuses evaluation before simplification), the simplifier sees the function; type coercion
+//! (`ExprSimplifier::coerce`) is applied first, as the optimizer does; (2) rows on which a float operand of a
+//! comparison / IN / BETWEEN / simple CASE of the original is NaN are not compared (arrow orders NaNs by sign and
+//! payload); (3) for `simplify_predicates` only rows on which every original conjunct evaluates on its own are
+//! compared (the order of a filter's conjuncts is not significant); (4) `<constant> IN ()` is not generated.
+//! Templates (`egen::templates`) supply the shapes the algebraic rules need (shared sub-terms, literal
+//! neighbourhoods, IN-list algebra, negations, boolean CASE, `x*1`, `x*0`, …).
+//!
+//! Open findings (each contradicts the statement; /verif/known_findings.json, cases under
+//! /verif/regressions/C04/c04/, candidate repairs /verif/fixes/C04-*.diff; shapes excluded by `known_shape`):
+//! log-power-inverse, guarantee-maybenull-single-value, unwrap-try-cast, unwrap-cast-decimal-to-int,
+//! physical-unwrap-cast-regex-null, inlist-algebra-null, simplify-predicates-literal-left,
+//! boolean-case-loses-laziness, negative-scalar-checked-array-wrapping, concat-all-null-args.
+//! Observed, not claimed: with guarantees the rewriter returns `Internal error: Interval arithmetic does not
+//! support the operator %` for e.g. `c % 2 = 0` (a discard here); the boolean-CASE rewrite also fails whole
+//! batches (`SELECT CASE WHEN x <> 0 THEN 10/x > 1 ELSE false END` → Divide by zero).
+//!
+//! Sensitivity probes (one mutrun build, /verif/probes/vf-expr/all-probes-env-guarded.diff, each mutation switched
+//! on by VF_PROBE, `./check C04 quick`; unmutated run exit 0):
+//! * m4 `A OR (A AND B)` → `A AND B` → VIOLATION after 1 312 cases;
+//! * m5 `x IN ()` → TRUE (and NOT IN → FALSE) → VIOLATION after 296 cases;
+//! * m7 `date_part('year', d) = y` preimage upper bound `y + 2` → VIOLATION after 2 518 cases;
+//! * m6 `try_cast_literal_to_type`: Int8 upper bound 128 instead of 127 → NOT detected at quick tier (exit 0):
+//!   weak spot — `CAST(i8_col AS wider) <op> 128` needs the literal 128 exactly; not re-probed for lack of time.
 use crate::ast::*;
 use crate::c33::{expr_labels, shape_strategy};
 use crate::df::*;
